@@ -570,9 +570,24 @@ Lemma stdout_oracle_exact sortf root keepdir (skipB : bool) lock ents exit out :
   (spec_ok_stdout root keepdir skipB lock (Some ents) exit out = true <->
    (exit, out) = ls_main sortf root keepdir skipB lock (Some ents)).
 Proof.
-  intros Hs Hn Hr He. unfold spec_ok_stdout, ls_main.
+  intros Hs Hn Hr He. unfold spec_ok_stdout, spec_ok_stdout_named, ls_main.
   rewrite !andb_true_iff, N.eqb_eq, beq_eq, (oracle_exact sortf) by assumption. split.
   - intros [[-> Hu] Hl]. rewrite <- Hl, Hu. reflexivity.
   - intros [= -> ->].
     rewrite getlines_unlines by (apply ls_lines_nonl; assumption). auto.
+Qed.
+
+(* ---- a lock file that names the directory by another spelling ---- *)
+Lemma respelled_lock_not_omitted :
+  exists root keepdir lock ents name,
+    running_builddir lock = Some (root ++ 47 :: 47 :: name) /\
+    In (mkde name DT_DIR) ents /\
+    In (mkpath root name) (ls_exec root keepdir true lock ents) /\
+    spec_ok_stdout_named root keepdir (Some (mkpath root name)) (Some ents)
+      (fst (ls_main_exec root keepdir true lock (Some ents)))
+      (snd (ls_main_exec root keepdir true lock (Some ents))) = false.
+Proof.
+  exists [47; 114], [47; 114; 47; 97; 116; 116; 105; 99],
+         (Some [47; 114; 47; 47; 97; 10]), [mkde [97] DT_DIR; mkde [98] DT_DIR], [97].
+  vm_compute. repeat split; auto.
 Qed.
